@@ -427,4 +427,53 @@ theorem dumpEncoding_encodes (format : Option String) (tgt : DumpTarget) (e : St
       · cases h; simp [encode]
       · cases h
 
+/-! ### readers of Atoms / System / ElasticConstants: they depend on exactly the keys the source looks up -/
+
+/-- `Atoms(model=…)` reads, under the root it finds, nothing but the count and the property list. -/
+theorem gen_atomsRead_reads_only [Mul K] [One K] [OfNat K 0] [IntCast K] (fac : String → K)
+    (kv : List (String × DM K)) :
+    atomsRead fac (.node [(ModelSource.atomsFind, .node (kv.filter (fun e =>
+        [ModelSource.atomsReadCountKey, ModelSource.atomsReadAslist].contains e.1)))])
+      = atomsRead fac (.node [(ModelSource.atomsFind, .node kv)]) := by
+  have hn := lookup_filter (β := DM K)
+    (fun k => [ModelSource.atomsReadCountKey, ModelSource.atomsReadAslist].contains k) "natoms" (by decide) kv
+  have hp := lookup_filter (β := DM K)
+    (fun k => [ModelSource.atomsReadCountKey, ModelSource.atomsReadAslist].contains k) "property" (by decide) kv
+  have hf : ModelSource.atomsFind = "atoms" := rfl
+  simp only [atomsRead, hf, DM.get?, DM.aslist, List.lookup_cons_self, hn, hp]
+
+/-- every property entry is read through `name` and `data` only. -/
+theorem gen_propRead_reads_only [Mul K] [One K] [IntCast K] (fac : String → K) (kv : List (String × DM K)) :
+    propRead fac (.node (kv.filter (fun e => ModelSource.atomsReadPropKeys.contains e.1))) = propRead fac (.node kv) := by
+  have hn := lookup_filter (β := DM K) (fun k => ModelSource.atomsReadPropKeys.contains k) "name" (by decide) kv
+  have hd := lookup_filter (β := DM K) (fun k => ModelSource.atomsReadPropKeys.contains k) "data" (by decide) kv
+  simp only [propRead, DM.getStr?, DM.get?, hn, hd]
+
+/-- `System(model=…)` — with the `Box(model=)` and `Atoms(model=)` it calls on the same node — reads, under the root
+    it finds, nothing but the five entries `System.model` writes. -/
+theorem gen_systemRead_reads_only [Add K] [Sub K] [Mul K] [Div K] [Neg K] [One K] [OfNat K 0] [IntCast K] [LT K]
+    [DecidableLT K] (fac : String → K) (eps : K) (kv : List (String × DM K)) :
+    systemRead fac eps (.node [(ModelSource.systemFind,
+        .node (kv.filter (fun e => (ModelSource.systemKeys true true).contains e.1)))])
+      = systemRead fac eps (.node [(ModelSource.systemFind, .node kv)]) := by
+  have h1 := lookup_filter (β := DM K) (fun k => (ModelSource.systemKeys true true).contains k) "box" (by decide) kv
+  have h2 := lookup_filter (β := DM K) (fun k => (ModelSource.systemKeys true true).contains k)
+    "periodic-boundary-condition" (by decide) kv
+  have h3 := lookup_filter (β := DM K) (fun k => (ModelSource.systemKeys true true).contains k)
+    "atom-type-symbol" (by decide) kv
+  have h4 := lookup_filter (β := DM K) (fun k => (ModelSource.systemKeys true true).contains k)
+    "atom-type-mass" (by decide) kv
+  have h5 := lookup_filter (β := DM K) (fun k => (ModelSource.systemKeys true true).contains k) "atoms" (by decide) kv
+  have hf : ModelSource.systemFind = "atomic-system" := rfl
+  simp only [systemRead, boxRead, atomsRead, hf, DM.get?, DM.aslist, List.lookup_cons_self, h1, h2, h3, h4, h5]
+
+/-- `ElasticConstants(model=…)` reads the one entry the writer stores. -/
+theorem gen_ecRead_reads_only [Add K] [Sub K] [Mul K] [Div K] [Neg K] [One K] [OfNat K 0] [IntCast K] [LT K]
+    [DecidableLT K] (fac : String → K) (eps atol rtol : K) (kv : List (String × DM K)) :
+    ecRead fac eps atol rtol (.node [(ModelSource.ecFind, .node (kv.filter (fun e => [ModelSource.ecReadKey].contains e.1)))])
+      = ecRead fac eps atol rtol (.node [(ModelSource.ecFind, .node kv)]) := by
+  have h1 := lookup_filter (β := DM K) (fun k => [ModelSource.ecReadKey].contains k) "Cij" (by decide) kv
+  have hf : ModelSource.ecFind = "elastic-constants" := rfl
+  simp only [ecRead, hf, DM.get?, List.lookup_cons_self, h1]
+
 end Atomman.C10
